@@ -109,7 +109,7 @@ def parse_arms(macros_rs):
     base_line = text[:i].count("\n") + 1
     arms = []
     # every arm's matcher: "(" ... ") => {{"
-    for mm in re.finditer(r"\(\s*func_type:\s*(.*?)\)\s*=>\s*\{\{", body, re.S):
+    for mm in re.finditer(r"\(\s*func_type:\s*(.*?)\)\s*=>\s*\{", body, re.S):
         matcher = mm.group(1)
         line = base_line + body[:mm.start()].count("\n")
         kind = None
